@@ -263,6 +263,9 @@ func c17Run(r *vkit.Run) {
 		`label_replace(count_over_time({}[10s]), "a", "$9", "a", "(.*)")`, `label_replace(rate({}[1s]), "", "", "", "")`, `absent_over_time({}[10s])`, `rate_counter({} | unwrap v [10s])`,
 		`quantile_over_time(1, {} | unwrap v [10s]) by (a)`, `quantile_over_time(0, {} | unwrap v [10s]) without (v, lat, msg)`, `quantile_over_time(1, {} | logfmt | unwrap v [10s]) by (a)`,
 		`{} |= ip("1.2.3.4") != ip("10.0.0.0/8")`, `{} | logfmt | ip == ip("1.2.3.4")`, `{} != ip("::1")`,
+		`{} | regexp "(?P<m>\\w+)( (?P<s>\\d+))?"`, `{} | regexp "(?P<a>G)|(?P<b>x)"`, `{} | regexp "(?P<a>z)?(?P<b>.)"`,
+		`vector(1) or vector(2) or vector(3)`, `vector(1) and vector(2) unless vector(3) and vector(4)`, `vector(1) + 1 or vector(2) or vector(3) unless vector(1)`,
+		`count_over_time({}[1s]) or count_over_time({}[2s]) or vector(0)`,
 		// empty vectors at every level
 		`vector(1) unless vector(1)`, `vector(1) and (vector(2) unless vector(2))`, `sum(vector(1) unless vector(1))`, `topk(1, vector(1) unless vector(1))`, `sort(vector(1) unless vector(1))`,
 		`count_over_time({nosuch="x"}[10s])`, `sum(count_over_time({nosuch="x"}[10s])) / sum(count_over_time({nosuch="y"}[10s]))`, `quantile_over_time(0.5, {nosuch="x"} | unwrap v [10s]) by (a)`,
